@@ -32,6 +32,9 @@ CHECKS = {
  "C09": ("exploration", "bounded-exhaustive message sequences (length <= 3 over an 18-symbol alphabet, 4 start states, 6 bystander configurations) plus random longer ones against the session model: termination status (code + reason), full hooked-state comparison, bystander silence, footprint probe",
          "Every sequence of up to three messages from {8 parameter combinations, election zero/low/equal/high, operation with/without id, 4 multi-field messages} is sent on a session started fresh / negotiated / primary / superseded, with other sessions present in six configurations; the status the RPC ends with must be in the set the gRIBI specification allows, the complete server state must equal the model after every message, other streams must stay silent, and afterwards a fresh session must be able to negotiate.",
          "trusted: session model; acceptance sets where the specification leaves room are listed in the evidence assumptions", "4 C09"),
+ "C10": ("fault_enumeration", "systematic enumeration of client cut points (every send/read step of a Modify script x half-close/cancel/transport kill, Get cut after k responses) with a prefix-closed state oracle and a bounded-progress liveness probe under watchdog + quiescent goroutine-dump classifier, in child processes",
+         "Every step of a scripted Modify session and every cut position of a streamed Get is used as a disconnect point, over direct streams and real gRPC (half-close, cancellation, killed transport), alone and in sequences. After each fault the contents and the highest election id must equal the state after some prefix of the unacknowledged operations, and a new session must negotiate, win the election, program an entry, read it back and flush - every step under a watchdog whose firing counts as a violation only if two goroutine dumps prove the server permanently blocked.",
+         "trusted: model.Predict for operations whose answers were not read; quiescence detection by goroutine dumps (one workload per child process)", "4 C10"),
  "C12": ("exploration", "hostile-input workload (structured protobuf mutation + named invalid classes) in sacrificial child processes with a state-unchanged oracle (contents, hooked pending set and refcounts), crash detection by process exit and hang detection by watchdog + quiescent goroutine-dump classifier",
          "Child processes each send hundreds of mutated or deliberately invalid AFT operations (through the RIB API and through a Modify stream) and Get/Flush request variants to a populated server that also carries a bystander session; each input is logged before it is sent so that a crash names its input. Invalid classes must be FAILED (or a clean RPC error) with contents, held operations and reference counters unchanged; inputs of unknown validity must not crash or hang and must leave state unchanged when rejected.",
          "trusted: the class tags of the generator; only wire-representable inputs are sent; the process boundary is the crash detector", "4 C12"),
